@@ -66,7 +66,9 @@ class AsyncKicker(Generic[_FuncParams, _ReturnType]):
         :param labels: new labels.
         :return: kicker with new labels.
         """
-        self.labels.update(labels)
+        # The labels dict may belong to the task (or to a message),
+        # so we must not modify it in place.
+        self.labels = {**self.labels, **labels}
         return self
 
     def with_task_id(self, task_id: str) -> "AsyncKicker[_FuncParams, _ReturnType]":
